@@ -273,6 +273,15 @@ def extract(tree):
     who = [w for w, g in res["stream_close_notify"]]
     res["close_notifies_both"] = (sorted(who) == ["rf", "wf"] and
                                   all(len(g) == 1 and g[0] == "if(%s&&%s->ev_callback)" % (w, w) for w, g in res["stream_close_notify"]))
+    # janet_proc_gc (finaliser of a process handle): kill + waitpid; with which options?
+    osfn = dict(functions(pre["os.c"])) if "os.c" in pre else {}
+    if "janet_proc_gc" not in osfn:
+        raise ExtractError("os.c: function janet_proc_gc not found")
+    pg = osfn["janet_proc_gc"]
+    mm = re.search(r"kill\s*\(\s*proc->pid\s*,[^;]*;.*?waitpid\s*\(\s*proc->pid\s*,\s*&status\s*,\s*([^)]*)\)", pg, re.S)
+    if not mm:
+        raise ExtractError("janet_proc_gc: kill(proc->pid, ...) followed by waitpid(proc->pid, &status, opts) not recognised")
+    res["proc_gc_wait_options"] = _ws(mm.group(1))
     sp = [gs for f, fnname, k, gs in res["counter"] if fnname == "janet_ev_handle_selfpipe" and k == "-"]
     if len(sp) != 1:
         raise ExtractError("janet_ev_handle_selfpipe: expected exactly one decrement of listener_count, found %d" % len(sp))
@@ -318,6 +327,10 @@ def render(tree):
              ", ".join("(%s, [%s])" % (_lstr(w), ", ".join(_lstr(g) for g in gs)) for w, gs in r["stream_close_notify"]) + "]")
     o.append("/-- are the read-side and the write-side fiber notified independently of each other? -/")
     o.append("abbrev closeNotifiesBoth : Bool := %s" % ("true" if r["close_notifies_both"] else "false"))
+    o.append("")
+    o.append("/-- janet_proc_gc: options of the waitpid that follows the SIGKILL (\"0\" = blocking) -/")
+    o.append("abbrev procGcWaitOptions : String := " + _lstr(r["proc_gc_wait_options"]))
+    o.append("abbrev procGcBlockingWait : Bool := %s" % ("true" if r["proc_gc_wait_options"] == "0" else "false"))
     o.append("")
     o.append("/-- does janet_ev_handle_selfpipe decrement listener_count only for events with a callback? -/")
     o.append("abbrev selfpipeDecNeedsCb : Bool := %s" % ("true" if r["selfpipe_dec_needs_cb"] else "false"))
